@@ -326,3 +326,117 @@ func ruleReflectString(c *Ctx, r *Report, fs []*FuncInfo) {
 		})
 	}
 }
+
+// flattenAnd returns the conjuncts of e.
+func flattenAnd(e ast.Expr, out *[]ast.Expr) {
+	e = ast.Unparen(e)
+	if be, ok := e.(*ast.BinaryExpr); ok && be.Op == token.LAND {
+		flattenAnd(be.X, out)
+		flattenAnd(be.Y, out)
+		return
+	}
+	*out = append(*out, e)
+}
+
+// rulePartialKey: R-PARTIAL-KEY.
+func rulePartialKey(c *Ctx, r *Report) {
+	r.Rule("R-PARTIAL-KEY", "in the retrieveNode family args.partialKeyMatch widens a lookup only in conjunction with a test that the key is absent from the path (comma-ok miss on the path's key map, or len(keys) == 0) — never with a comparison of the key's value (an empty key value is a value, it selects no entry)", 3)
+	for _, name := range retrieveFamily {
+		f := c.MustFunc(r, "ytypes", name)
+		if f == nil {
+			continue
+		}
+		info := f.Info()
+		pm := c.parentMap(f.File)
+		n := 0
+		ast.Inspect(f.Decl.Body, func(x ast.Node) bool {
+			sel, ok := x.(*ast.SelectorExpr)
+			if !ok || !isArgsField(info, sel, "partialKeyMatch") {
+				return true
+			}
+			// polarity and enclosing conjunction.
+			var cur ast.Expr = sel
+			neg := false
+			for {
+				p, ok := pm[cur].(ast.Expr)
+				if !ok {
+					break
+				}
+				if u, ok := p.(*ast.UnaryExpr); ok && u.Op == token.NOT {
+					if cur == ast.Expr(sel) || ast.Unparen(u.X) == ast.Expr(sel) {
+						neg = !neg
+						cur = p
+						continue
+					}
+					break
+				}
+				if _, ok := p.(*ast.ParenExpr); ok {
+					cur = p
+					continue
+				}
+				if be, ok := p.(*ast.BinaryExpr); ok && be.Op == token.LAND {
+					cur = p
+					continue
+				}
+				break
+			}
+			if neg {
+				return true
+			}
+			if _, isKV := pm[sel].(*ast.KeyValueExpr); isKV {
+				return true
+			}
+			n++
+			var conj []ast.Expr
+			flattenAnd(cur, &conj)
+			absent := ""
+			for _, cj := range conj {
+				if u, ok := cj.(*ast.UnaryExpr); ok && u.Op == token.NOT {
+					if id, ok := ast.Unparen(u.X).(*ast.Ident); ok && boundByMapCommaOk(f, info.ObjectOf(id)) {
+						absent = "comma-ok miss"
+					}
+				}
+				if be, ok := cj.(*ast.BinaryExpr); ok && be.Op == token.EQL {
+					if call, ok := ast.Unparen(be.X).(*ast.CallExpr); ok && len(call.Args) == 1 {
+						if id, ok := call.Fun.(*ast.Ident); ok && id.Name == "len" {
+							if v, ok := ConstOf(info, be.Y); ok && v == "0" {
+								if tv, ok := info.Types[call.Args[0]]; ok {
+									if _, isMap := tv.Type.Underlying().(*types.Map); isMap {
+										absent = "len(keys) == 0"
+									}
+								}
+							}
+						}
+					}
+				}
+			}
+			r.Check(absent != "", fmt.Sprintf("ytypes.%s:partialKeyMatch#%d", name, n), c.Pos(sel.Pos()), "conjoined with "+absent,
+				name+" widens a lookup under partialKeyMatch without testing that the key is absent from the path: a key given with an empty value matches every entry (a leafref predicate whose source leaf is unset then accepts any value present in the list)")
+			return true
+		})
+	}
+}
+
+// boundByMapCommaOk: obj is the second variable of `v, ok := m[k]` with m a map.
+func boundByMapCommaOk(f *FuncInfo, obj types.Object) bool {
+	if obj == nil {
+		return false
+	}
+	info := f.Info()
+	found := false
+	ast.Inspect(f.Decl.Body, func(n ast.Node) bool {
+		as, ok := n.(*ast.AssignStmt)
+		if !ok || len(as.Lhs) != 2 || len(as.Rhs) != 1 || ObjOf(info, as.Lhs[1]) != obj {
+			return true
+		}
+		if ix, ok := ast.Unparen(as.Rhs[0]).(*ast.IndexExpr); ok {
+			if tv, ok := info.Types[ix.X]; ok {
+				if _, isMap := tv.Type.Underlying().(*types.Map); isMap {
+					found = true
+				}
+			}
+		}
+		return true
+	})
+	return found
+}
